@@ -49,6 +49,29 @@ package cluster
 //@   ensures [oversized-queued-or-counted] called("OversizedMessage") && ret("OversizedMessage") ==> (ret("select") == 0 || called("Counter).Inc"))
 //@   noeffect dynamic:field:send
 
+// C19: the consumer of the reliable-channel queue. Every queued update spawns one sender per member reported by the
+// peers callback (in order, each handed its own member), the senders are awaited before the next update is taken,
+// and the consumer goes away only when told to stop - a failed send to one member ends only that member's sender.
+//@ func (*Channel).handleOverSizedMessages
+//@   props C19
+//@   abstract
+//@   nosafe
+//@   ensures [stops-only-when-told] called("select") && ret("select") == 1
+//@   at call go:handleOverSizedMessages$1 assert [one-sender-per-member] rangeindex2 + 1 < len(ret("dynamic:field:peers")) && arg0 == ret("dynamic:field:peers")[rangeindex2 + 1] && count("go.stmt") == count("WaitGroup).Add") - 1
+//@   at call WaitGroup).Add assert [each-sender-awaited] arg1 == 1
+//@   at call WaitGroup).Wait assert [every-member-served-before-the-next-update] rangeindex2 + 1 == len(ret("dynamic:field:peers")) && count("go.stmt") == count("WaitGroup).Add")
+//@   loop 1 invariant count("go.stmt") == count("WaitGroup).Add") && count("dynamic:field:peers") == count("WaitGroup).Wait")
+//@   loop 2 invariant rangeindex < len(ret("dynamic:field:peers")) && count("go.stmt") == count("WaitGroup).Add") && count("go.stmt") == pre(count("go.stmt")) + rangeindex + 1
+//@   noeffect dynamic:field:peers
+//@ func (*Channel).handleOverSizedMessages$1
+//@   props C19
+//@   abstract
+//@   nosafe
+//@   at call dynamic:field:sendOversize assert [sends-the-update-to-its-member] arg0 == n && arg1 == deref(b)
+//@   ensures [one-reliable-send] count("dynamic:field:sendOversize") == 1
+//@   ensures [completion-signalled] count("WaitGroup).Done") == 1
+//@   noeffect dynamic:field:sendOversize
+
 // ---- C19: to whom an oversized update is sent reliably: every member memberlist reports, except this instance
 // (the first entry carrying its name), in memberlist's order. memberlist itself (Members, LocalNode, Node.String =
 // the node's name) is outside the verified subset: its answers are named by uninterpreted functions.
